@@ -20,10 +20,11 @@
 EXTENDS Integers, Sequences, FiniteSets, TLC, Json, IOUtils
 
 Cases == JsonDeserialize(IOEnv.CASES)
-CONSTANT MaxRuns
+CONSTANTS MaxRuns, MaxIters
 
-VARIABLES cid, stage, sub, pc, ret, assoc, rcp, cell, liveB, liveC, nb, nc, flagval, nextPhase, nruns, err, path
-vars == <<cid, stage, sub, pc, ret, assoc, rcp, cell, liveB, liveC, nb, nc, flagval, nextPhase, nruns, err, path>>
+VARIABLES cid, stage, sub, pc, ret, assoc, rcp, cell, liveB, liveC, nb, nc, flagval, nextPhase, nruns, err, path,
+          iters     \* back jumps of do-loops taken in the current top-level call (bounded by MaxIters)
+vars == <<cid, stage, sub, pc, ret, assoc, rcp, cell, liveB, liveC, nb, nc, flagval, nextPhase, nruns, err, path, iters>>
 
 P == Cases[cid]
 Ins == P.subs[sub]
@@ -38,7 +39,7 @@ Init ==
     /\ assoc = [v \in SeqSet(Cases[cid].allvec) |-> Undef]
     /\ rcp = [r \in SeqSet(Cases[cid].allrc) |-> Undef]
     /\ cell = <<>> /\ liveB = {} /\ liveC = {} /\ nb = 0 /\ nc = 0
-    /\ flagval = <<>> /\ nextPhase = "" /\ nruns = 0 /\ err = "" /\ path = <<>>
+    /\ flagval = <<>> /\ nextPhase = "" /\ nruns = 0 /\ err = "" /\ path = <<>> /\ iters = 0
 
 \* P.flags[s]: the free condition names of subroutine s; names in P.phaselits / P.assoclits and "$false" are computed
 LocalsOf(s) == SeqSet(P.locals[s].vec)
@@ -55,19 +56,20 @@ Start ==
     /\ stage = "start"
     /\ stage' = "init"
     /\ Enter("initialize", <<>>)
-    /\ UNCHANGED <<cid, cell, liveB, liveC, nb, nc, nextPhase, nruns, err, path>>
+    /\ UNCHANGED <<cid, cell, liveB, liveC, nb, nc, nextPhase, nruns, err, path, iters>>
 
 Run ==
     /\ stage = "idle" /\ nruns < MaxRuns /\ err = ""
     /\ stage' = "run" /\ nruns' = nruns + 1
     /\ Enter("run", <<>>)
+    /\ iters' = 0
     /\ UNCHANGED <<cid, cell, liveB, liveC, nb, nc, nextPhase, err, path>>
 
 Shutdown ==
     /\ stage = "idle" /\ err = ""
     /\ stage' = "shutdown"
     /\ Enter("shutdown", <<>>)
-    /\ UNCHANGED <<cid, cell, liveB, liveC, nb, nc, nextPhase, nruns, err, path>>
+    /\ UNCHANGED <<cid, cell, liveB, liveC, nb, nc, nextPhase, nruns, err, path, iters>>
 
 \* truth of a literal <<name, polarity>> in the current invocation
 LitName(l) == l[1]
@@ -81,9 +83,9 @@ Holds(l) ==
 CondHolds(lits) == \A k \in DOMAIN lits : Holds(lits[k])
 
 Fault(e) == /\ err' = e /\ stage' = "error"
-            /\ UNCHANGED <<cid, sub, pc, ret, assoc, rcp, cell, liveB, liveC, nb, nc, flagval, nextPhase, nruns>>
+            /\ UNCHANGED <<cid, sub, pc, ret, assoc, rcp, cell, liveB, liveC, nb, nc, flagval, nextPhase, nruns, iters>>
             /\ path' = Append(path, <<sub, pc>>)
-Next1 == pc' = pc + 1 /\ UNCHANGED <<cid, stage, sub, ret, flagval, nruns, err>> /\ path' = path
+Next1 == pc' = pc + 1 /\ UNCHANGED <<cid, stage, sub, ret, flagval, nruns, err, iters>> /\ path' = path
 
 CellOK(r) == rcp[r] \in liveC
 
@@ -146,26 +148,34 @@ Step ==
          [] i[1] = "br" ->
               /\ pc' = IF CondHolds(i[3]) THEN pc + 1 ELSE i[2]
               /\ path' = Append(path, <<sub, pc, CondHolds(i[3])>>)
-              /\ UNCHANGED <<cid, stage, sub, ret, assoc, rcp, cell, liveB, liveC, nb, nc, flagval, nextPhase, nruns, err>>
+              /\ UNCHANGED <<cid, stage, sub, ret, assoc, rcp, cell, liveB, liveC, nb, nc, flagval, nextPhase, nruns, err, iters>>
          [] i[1] = "jmp" ->
               /\ pc' = i[2] /\ path' = path
+              /\ UNCHANGED <<cid, stage, sub, ret, assoc, rcp, cell, liveB, liveC, nb, nc, flagval, nextPhase, nruns, err, iters>>
+         [] i[1] = "again" ->
+              \* end of a loop body: another iteration (bounded) or on
+              /\ \E back \in BOOLEAN :
+                    /\ (back => iters < MaxIters)
+                    /\ pc' = IF back THEN i[2] ELSE pc + 1
+                    /\ iters' = IF back THEN iters + 1 ELSE iters
+                    /\ path' = Append(path, <<sub, pc, back>>)
               /\ UNCHANGED <<cid, stage, sub, ret, assoc, rcp, cell, liveB, liveC, nb, nc, flagval, nextPhase, nruns, err>>
          [] i[1] = "setphase" ->
               Next1 /\ nextPhase' = i[2] /\ UNCHANGED <<assoc, rcp, cell, liveB, liveC, nb, nc>>
          [] i[1] = "call" ->
               /\ Enter(i[2], <<sub, pc + 1, flagval>>)
               /\ path' = Append(path, <<"call", i[2]>>)
-              /\ UNCHANGED <<cid, stage, cell, liveB, liveC, nb, nc, nextPhase, nruns, err>>
+              /\ UNCHANGED <<cid, stage, cell, liveB, liveC, nb, nc, nextPhase, nruns, err, iters>>
          [] i[1] = "stop" ->
               /\ stage' = "stopped" /\ path' = path
-              /\ UNCHANGED <<cid, sub, pc, ret, assoc, rcp, cell, liveB, liveC, nb, nc, flagval, nextPhase, nruns, err>>
+              /\ UNCHANGED <<cid, sub, pc, ret, assoc, rcp, cell, liveB, liveC, nb, nc, flagval, nextPhase, nruns, err, iters>>
          [] i[1] = "ret" ->
               IF ret # <<>>
               THEN /\ sub' = ret[1] /\ pc' = ret[2] /\ flagval' = ret[3] /\ ret' = <<>> /\ path' = path
-                   /\ UNCHANGED <<cid, stage, assoc, rcp, cell, liveB, liveC, nb, nc, nextPhase, nruns, err>>
+                   /\ UNCHANGED <<cid, stage, assoc, rcp, cell, liveB, liveC, nb, nc, nextPhase, nruns, err, iters>>
               ELSE /\ stage' = IF stage = "shutdown" THEN "done" ELSE "idle"
                    /\ path' = path
-                   /\ UNCHANGED <<cid, sub, pc, ret, assoc, rcp, cell, liveB, liveC, nb, nc, flagval, nextPhase, nruns, err>>
+                   /\ UNCHANGED <<cid, sub, pc, ret, assoc, rcp, cell, liveB, liveC, nb, nc, flagval, nextPhase, nruns, err, iters>>
 
 Next == Start \/ Run \/ Shutdown \/ Step
 Spec == Init /\ [][Next]_vars
